@@ -1349,14 +1349,13 @@ impl GRLParser {
         }
 
         // String literal
-        if trimmed.len() >= 2 {
-            let unquoted = &trimmed[1..trimmed.len() - 1];
-            if (trimmed.starts_with('"') && trimmed.ends_with('"') && !unquoted.contains('"'))
-                || (trimmed.starts_with('\'')
-                    && trimmed.ends_with('\'')
-                    && !unquoted.contains('\''))
-            {
-                return Ok(Value::String(unquoted.to_string()));
+        for quote in ['"', '\''] {
+            // test the (ASCII) quotes before slicing: byte 1 / len-1 are char boundaries only then
+            if trimmed.len() >= 2 && trimmed.starts_with(quote) && trimmed.ends_with(quote) {
+                let unquoted = &trimmed[1..trimmed.len() - 1];
+                if !unquoted.contains(quote) {
+                    return Ok(Value::String(unquoted.to_string()));
+                }
             }
         }
 
